@@ -29,11 +29,76 @@ def fr(p):
     return Fr(int(p[0]), int(p[1]))
 
 
-def close(a, b, exact):
-    """a: float from the code, b: Fraction reference."""
+def close(a, b, exact, extra=0):
+    """a: float from the code, b: Fraction reference; extra: additional absolute tolerance (rounding bound)."""
     if exact:
         return Fr(float(a)) == b
-    return abs(Fr(float(a)) - b) <= Fr(TOL) * max(1, abs(b))
+    return abs(Fr(float(a)) - b) <= max(Fr(TOL) * max(1, abs(b)), Fr(extra))
+
+
+KEPS = 64 * 2.0 ** -52
+
+
+def coef_form_bound(method, gfr, tfr, pt):
+    """Rounding bound for the fixed-dimension classes (1D/2D/3D-slinear/lagrange2/lagrange3).
+
+    These classes expand the cell polynomial into monomials, a[m,n,p] = sum_ijk termx[m,i] termy[n,j]
+    termz[p,k] v[i,j,k], and evaluate sum a[m,n,p] tx^m ty^n tz^p with t = x - (first stencil node)
+    (slinear: raw coordinates).  Every elementary product appears in
+        S = sum_ijk |v_ijk| * prod_d A_d,i ,   A_d,i = sum_m |c_d,i,m| |t_d|^m
+    (c_d,i,m the monomial coefficients of the i-th Lagrange basis polynomial of the stencil in t), so the
+    computed value differs from the exact one by at most ~ n_ops * u * S; we allow 64 * 2^-52 * S (the largest
+    error observed over 13000 points of the thorough stream is 1.9 * 2^-52 * S).
+    S is computed here with exact rationals, maximised over the cells a point on a node may be assigned to."""
+    import itertools
+    nd = len(gfr)
+    width = {'slinear': 2, 'lagrange2': 3, 'lagrange3': 4}[method]
+    per_dim = []
+    for d in range(nd):
+        g, x = gfr[d], pt[d]
+        n = len(g)
+        cells = [i for i in range(n - 1) if g[i] <= x <= g[i + 1]]
+        if not cells:
+            cells = [0] if x < g[0] else [n - 2]
+        opts = []
+        for i in cells:
+            if method == 'slinear':
+                lo, shift = i, Fr(0)
+            elif method == 'lagrange2':
+                lo = min(i, n - 3)
+                shift = g[lo]
+            else:
+                lo = min(max(i, 1), n - 3) - 1
+                shift = g[lo]
+            nodes = list(range(lo, lo + width))
+            t = abs(x - shift)
+            A = []
+            for s_ in nodes:
+                coef = [Fr(1)]                    # monomial coefficients (lowest first) of prod (T - r_k)/(g_s - g_k)
+                for r in nodes:
+                    if r == s_:
+                        continue
+                    root, den = g[r] - shift, g[s_] - g[r]
+                    new = [Fr(0)] * (len(coef) + 1)
+                    for m, cm in enumerate(coef):
+                        new[m + 1] += cm / den
+                        new[m] -= cm * root / den
+                    coef = new
+                A.append(sum(abs(cm) * t ** m for m, cm in enumerate(coef)))
+            opts.append((nodes, A))
+        per_dim.append(opts)
+    best = Fr(0)
+    for combo in itertools.product(*per_dim):
+        S = Fr(0)
+        for idx in itertools.product(*[range(width)] * nd):
+            v = tfr
+            w = Fr(1)
+            for d in range(nd):
+                v = v[combo[d][0][idx[d]]]
+                w *= combo[d][1][idx[d]]
+            S += abs(v) * w
+        best = max(best, S)
+    return float(best) * KEPS
 
 
 def nested_get(t, ks):
@@ -188,21 +253,25 @@ def handle(c):
                                 dtype=float).ravel()
         except Exception as e:   # noqa
             gen_vals = None
+    coef_form = c['variant'] == 'fixed' and method in ('slinear', 'lagrange2', 'lagrange3')
+    bounds = [coef_form_bound(method, gfr, tfr, pt) if coef_form else 0.0 for pt in pfr]
+    relb = max([b / max(1.0, abs(float(v))) for b, v in zip(bounds, vals)] + [0.0])
     for j, pt in enumerate(pfr):
         inb = all(gfr[i][0] <= pt[i] <= gfr[i][-1] for i in range(nd))
         if not inb:
             continue
+        xb = bounds[j]
         # node exactness
         if all(pt[i] in gfr[i] for i in range(nd)):
             want = nested_get(tfr, [gfr[i].index(pt[i]) for i in range(nd)])
-            if not close(vals[j], want, exact):
+            if not close(vals[j], want, exact, xb):
                 ok, sig = False, 'node-value'
                 msg = '%s at grid node %s returned %r, table value is %s' % (name, [str(v) for v in pt], vals[j], want)
                 break
         # reproduction of the functions the method is exact for
         if c.get('poly') is not None:
             want = poly_eval(c['poly'], pt)
-            if not close(vals[j], want, exact):
+            if not close(vals[j], want, exact, xb):
                 ok, sig = False, 'reproduction'
                 msg = '%s on the table of %s at %s returned %r, the function value is %s' % (
                     name, c['poly'], [str(v) for v in pt], vals[j], want)
@@ -213,13 +282,13 @@ def handle(c):
             if c['via'] == 'comp' and c['variant'] == 'general':
                 same = a == b
             else:
-                same = abs(a - b) <= TOL * max(1.0, abs(b))
+                same = abs(a - b) <= max(TOL * max(1.0, abs(b)), xb)
             if not same:
                 ok, sig = False, 'variant-disagrees'
                 msg = '%s (%s) at %s returned %r, InterpND %s returns %r' % (
                     name, c['via'], [str(v) for v in pt], a, method, b)
                 break
-    return {'res': res, 'ok': ok, 'msg': msg, 'sig': sig, 'kind': kind}
+    return {'res': res, 'ok': ok, 'msg': msg, 'sig': sig, 'kind': kind, 'relbound': relb}
 
 
 if __name__ == '__main__':
